@@ -5,6 +5,10 @@ HERE = os.path.dirname(os.path.dirname(os.path.abspath(__file__)))
 
 # id -> (technique, level text, level note, design ref)
 CHECKS = {
+ "C01": ("model-based PBT: proptest-generated group/assignment histories rendered as TeX programs, output compared with a stack-of-snapshots reference model",
+         "Random histories (up to 250 operations, depth 0..8) of {, }, local / \\global / \\gdef / \\let / \\globaldefs-governed assignments to every target kind named in the property, with all targets read back after every group end; the token-exact output must equal the reference model's. Shrunk counterexamples are replayable JSON histories.",
+         "Trusted: the 30-line snapshot model of TeX's scoping rules (DESIGN.md A.1), the rendering of histories to one-line programs, proptest. Generated search shows presence of violations, not absence.",
+         "DESIGN.md §4 C01"),
  "C20": ("model-based PBT: exhaustive short histories + BFS over abstract states + proptest long histories vs stack-of-snapshots model; exhaustive KMP vs naive; interner under colliding hashers; multithreaded tag stress",
          "Every history of the 10-operation alphabet up to length 6 (quick) / 7 (thorough) is run against a stack-of-snapshots model with get/len/iter compared after every step, iter_all rebuilds compared and continued, and both unwound to depth 0; plus BFS over distinct abstract states and long random histories. Matcher: every pattern/text pair in the stated bounds. Interner: random op sequences under constant, 3-bucket and default hashers incl. serde round trips. Tags: randomized stress only (the harness does not own the scheduler).",
          "Trusted: the snapshot model (20 lines), the naive substring search, proptest. Tag uniqueness under all interleavings is NOT established, only stress-tested.",
